@@ -40,6 +40,10 @@ def cases(rng, tier):
         offP = (g1.gen[0], g1.gen[1] + 1)
         cs.append(pair_case(mod, offQ, g1.gen, rng))
         cs.append(pair_case(mod, g2.gen, offP, rng))
+        # an off-curve argument is refused also when the OTHER argument is (any representative of) infinity
+        cs.append(pair_case(mod, offQ, None, rng))
+        cs.append(pair_case(mod, None, offP, rng))
+        cs.append(pair_case(mod, None, None, rng))
         if not ref:
             cs.append(pair_case(mod, O.aff_mul(g2.gen, 3), O.aff_mul(g1.gen, 5), rng, fe=0))
     return cs
@@ -97,7 +101,8 @@ def edge_pred(mod):
     one = [1] + [0] * 11
     if lib_pairing(mod, None, g1.gen) != one or lib_pairing(mod, g2.gen, None) != one or lib_pairing(mod, None, None) != one:
         bad.append("infinity does not give the unit")
-    for Q, P, tag in (((g2.gen[0], g2.gen[1] + 1), g1.gen, "Q"), (g2.gen, (g1.gen[0], g1.gen[1] + 1), "P")):
+    offQ, offP = (g2.gen[0], g2.gen[1] + 1), (g1.gen[0], g1.gen[1] + 1)
+    for Q, P, tag in ((offQ, g1.gen, "Q"), (g2.gen, offP, "P"), (offQ, None, "Q paired with infinity"), (None, offP, "P paired with infinity")):
         try:
             lib_pairing(mod, Q, P)
             bad.append(f"off-curve {tag} was paired")
@@ -105,6 +110,21 @@ def edge_pred(mod):
             pass
         except Exception as e:  # noqa: BLE001
             bad.append(f"off-curve {tag}: {type(e).__name__} instead of ValueError")
+    if mod.startswith("Opt"):
+        import random
+        rr = random.Random(7)
+        for _ in range(2):
+            if lib_pairing(mod, None, g1.gen, rr) != one or lib_pairing(mod, g2.gen, None, rr) != one:
+                bad.append("a non-canonical representative of infinity does not give the unit")
+        M = importlib.import_module(pyexec.MODS[mod])
+        for Z, other, first in ((M.double(M.Z1), M.G2, False), (M.multiply(M.Z1, 6), M.G2, False), (M.double(M.Z2), M.G1, True),
+                                (M.double(M.multiply(M.G1, M.curve_order)), M.G2, False)):
+            try:
+                r = M.pairing(Z, other) if first else M.pairing(other, Z)
+                if [int(c) for c in r.coeffs] != one:
+                    bad.append("pairing with the identity in a non-canonical representation (e.g. double(Z1), multiply(Z1, 6)) is not the unit")
+            except Exception as e:  # noqa: BLE001
+                bad.append(f"pairing with a non-canonical identity raised {type(e).__name__}")
     return (not bad, f"{mod} pairing edge cases: {bad}")
 
 
